@@ -564,10 +564,23 @@ def rule_r7(repo, run):
                           "continued and exceeds 132 columns for long argument lists" % (j.args[0].id, j.func.value.value),
                           wf.loc(j))
     run.floor(R, "joined argument lists in wrapf", nj, 4)
+    # a list with one name per overload / specific (generic interfaces, type-bound generics) is unbounded as well
+    for q, fn in sorted(wf.functions().items()):
+        for j in ast.walk(fn):
+            if isinstance(j, ast.Call) and isinstance(j.func, ast.Attribute) and j.func.attr == "join" and \
+                    isinstance(j.func.value, ast.Constant) and isinstance(j.func.value.value, str) and "," in j.func.value.value \
+                    and j.args and isinstance(j.args[0], (ast.ListComp, ast.GeneratorExp)) and \
+                    re.search(r"fmtdict\.|F_name|\.name\b", ast.unparse(j.args[0].elt)):
+                run.check(R, "wrapf.%s:join(%s)" % (q, re.sub(r"\s+", "", ast.unparse(j.args[0]))[:40]), "\t" in j.func.value.value,
+                          "one name per overload is joined with %r into a single statement without a \\t break hint: six specifics of "
+                          "thirty characters exceed 132 columns and the line cannot be continued" % j.func.value.value, wf.loc(j))
     # leading blanks of user splicer lines are kept (they shield a leading - + @ ^ from the layout interpreter)
     from checks import c12
     from sa.report import import_rules
     import_rules(run, R, c12, repo, {"C12.R4"}, only=lambda c: c == "reader.store")
+    # the line lengths are options: a length given on the command line is the one that is used (C14.R5)
+    from checks import c14
+    import_rules(run, R, c14, repo, {"C14.R5"}, only=lambda c: c.endswith(":command-line-wins") or c.endswith(":int-options"))
     # statements that list one name per overload must be breakable
     wf = repo.module("wrapf")
     wcl = wf.func("Wrapf.wrap_class")
